@@ -40,6 +40,16 @@ CLAIMED = {
          "Trusted: TLC, TSan (only executed interleavings), atomic critical sections, hooks, mt_drv.c. The incompressible-data "
          "fallback path and threads_stop(wait) at re-initialisation are model-only / not modelled respectively.",
          "§4 C08"),
+ "C20": ("TLA+ transcriptions of xzgrep.in / xzdiff.in (XzGrep.tla, XzDiff.tla: option scanner, per-file step, status fold, labelling) "
+         "model-checked by TLC against contract modules; TLC-generated plans (options x patterns x file states x hostile name classes) "
+         "replayed into the real scripts and compared with the model's prediction + real grep/diff/cmp on the decompressed data",
+         "TLC checks the scripts' control logic (declarative getopt, exit-status fold incl. SIGPIPE tolerance and decompressor failure, "
+         "label iff last of -h/-H else >1 file, -l/-L, operand classification of xzdiff) for all file-state vectors of length <= 3 and "
+         "all option words within the bounds; ~400 (quick) / ~8000 (thorough) TLC-simulated invocations of the real scripts with 20 hostile "
+         "name classes and both labelling methods must give exactly the predicted stdout / status / untouched directory.",
+         "Trusted: TLC, system grep/diff/cmp as the oracle for line content, the driver. Shell quoting / eval / sed semantics are observed on "
+         "the hostile classes, not modelled (stated in evidence); xzless/xzmore are not exercised.",
+         "§4 C20"),
 }
 NA_REASON = "check not built yet in this round (planned: see DESIGN.md §4); no claim is made"
 def main():
